@@ -917,3 +917,23 @@ twin("C16-T11", "C16", "header lower-cased once into a local", PR, "ProgramSet._
 mutant("C16-M47", "C16", "R16r", "targeted populations written as N", PR, "ProgramSet._write_targeting", "if pop in prog.target_pops:", "if pop not in prog.target_pops:")
 mutant("C16-M48", "C16", "R16r", "every non-empty cell counts as a targeted compartment", PR, "ProgramSet._read_targeting", "            for i in range(comp_start_idx, len(headers)):\n                if row[i].value and sc.isstring(row[i].value) and row[i].value.lower().strip() == \"y\":", "            for i in range(comp_start_idx, len(headers)):\n                if row[i].value and sc.isstring(row[i].value):")
 mutant("C16-M49", "C16", "R16r", "program built with the population list for both targets", PR, "ProgramSet._read_targeting", "target_pops=target_pops, target_comps=target_comps)", "target_pops=target_pops, target_comps=target_pops)")
+# ---- round 9 and the seeded changes themselves
+
+def _seeded():
+    """Every stored seeded change is a mutant of every property that is recorded as catching it (meta.json: caught_now_by)."""
+    import glob
+    import json
+    import os
+
+    here = os.path.dirname(os.path.dirname(os.path.dirname(os.path.abspath(__file__))))
+    for d in sorted(glob.glob(os.path.join(here, "seeded", "S*"))):
+        try:
+            meta = json.load(open(os.path.join(d, "meta.json")))
+        except (OSError, ValueError):
+            continue
+        sid = os.path.basename(d).split("-")[0]
+        for prop in [x.strip() for x in meta.get("caught_now_by", "").split(",") if x.strip().startswith("C")]:
+            mutant("%s@%s" % (sid, prop), prop, None, "seeded change %s (breaks %s)" % (os.path.basename(d)[:60], meta.get("breaks_property")), edits=[dict(patch=os.path.join(d, "patch.diff"))])
+
+
+_seeded()
